@@ -108,7 +108,29 @@ void SimBackend::InitCustomOptions() {
 bool SimBackend::IsMIP() const { return BaseBackend::IsMIP(); }
 bool SimBackend::IsQCP() const { return M().n_in_group(mp::CG_Quadratic) > 0; }
 
+int g_session = 0;
+static int g_session_regs = 0;
+void SimBackend::FinishOptionParsing() {
+  Call("FinishOptionParsing");
+  // a driver that connects to its solver once the options are known (server=..., cloud, licence token): the session opened
+  // in the constructor is closed and another one takes its place - on every parse
+  if (g_script["session_pattern"].as_bool() && g_script["session_reopen"].as_bool(true)) {
+    g_session = (g_session + 1) % 16;
+    sim::g.event("SESSION_OPEN cell" + std::to_string(g_session));
+  }
+}
+
 void do_registrations(mp::Interrupter* inter, int at_iter) {
+  if (g_script["session_pattern"].as_bool()) {
+    // register the session in use now, the way drivers hand their solver handle to the interrupter
+    if (at_iter < 0) {
+      int idx = g_session_regs++ % 16;
+      sim::g.event("SETHANDLER_BEGIN " + std::to_string(idx) + " A cell" + std::to_string(g_session));
+      inter->SetHandler(cbA, &g_reg_cells[g_session]);
+      sim::g.event("SETHANDLER_END " + std::to_string(idx));
+    }
+    return;
+  }
   const sim::Json& regs = g_script["registrations"];
   if (!regs.is_arr()) {
     if (at_iter < 0) {  // default: one registration
@@ -226,6 +248,7 @@ void SimBackend::Solve() {
   MaybeThrow("Solve");
   mp::Interrupter* inter = interrupter();
   long iters = script_int("solve_iters", 2);
+  if (g_script["session_pattern"].as_bool()) sim::g.event("SOLVE_SESSION cell" + std::to_string(g_session));
   for (long it = 0; it < iters; ++it) {
     sim::g.yield("stub", "stub.solve.iter");
     DoRegistrations(inter, (int)it);
@@ -249,6 +272,7 @@ void SimBackend::Solve() {
     bool st = inter->Stop();
     sim::g.event(std::string("STOP_POLL ") + (st ? "1" : "0"));
   }
+  if (g_script["session_pattern"].as_bool()) sim::g.event("SOLVE_END");
 }
 
 void SimBackend::ReportResults() {
